@@ -7,6 +7,7 @@ import Ndt.Model.FdDerivative
 import Ndt.Model.Dea
 import Ndt.Model.Steps
 import Ndt.Model.Guards
+import Ndt.Model.Select
 import Ndt.Gen.BicomplexRing
 /-! The line-protocol driver: one operation per input line, one output line per input line. -/
 namespace Ndt.Driver
@@ -74,8 +75,27 @@ def bcOf : List String → Bc (Cx Rat)
   | _ => ⟨⟨0, 0⟩, ⟨0, 0⟩⟩
 def bcStr (z : Bc (Cx Rat)) : String := cxStr z.z1 ++ " " ++ cxStr z.z2
 
+def selConsts : SelConsts Float := ⟨10.0, 1.0e-8, 1.5, 0.5⟩
+
+def bestStr (b : Best Float) : String :=
+  joinSp (b.value.map toHex) ++ " | " ++ joinSp (b.err.map toHex) ++ " | " ++ joinSp (b.step.map toHex) ++ " | " ++
+    joinSp (b.index.map toString)
+
 def handle (w : List String) : String :=
   match w with
+  -- select nrows ncols | der… | errs… | steps…   (Float): _get_best_estimate
+  | "select" :: nr :: nc :: rest =>
+    match splitBar rest with
+    | [_, der, errs, steps] => bestStr (bestEstimate selConsts nr.toNat! nc.toNat! (floats der) (floats errs) (floats steps))
+    | _ => "bad-op"
+  -- tail eps tiny nrows ncols | der… | errs… | steps… : the stages after Richardson (dea3 if > 2 rows, selection)
+  | "tail" :: eps :: tiny :: nr :: nc :: rest =>
+    match splitBar rest with
+    | [_, der, errs, steps] =>
+      bestStr (tailStage (floatConsts (fb eps) (fb tiny)) selConsts nr.toNat! nc.toNat! (floats der) (floats errs) (floats steps))
+    | _ => "bad-op"
+  -- outliers | col… : _add_error_to_outliers of one column
+  | "outliers" :: col => joinSp ((outlierErrors selConsts (floats col)).map toHex)
   -- bc op a(4 rationals) [b(4 rationals)]: ring operations of Bicomplex on Gaussian rationals
   | ["bc", "neg", a1, a2, a3, a4] => bcStr (bcOf [a1, a2, a3, a4]).neg
   | ["bc", "conj", a1, a2, a3, a4] => bcStr (bcOf [a1, a2, a3, a4]).conjugate
